@@ -12,9 +12,13 @@ use serde_json::{json, Value};
 
 use crate::{
     common::*,
-    io::{wire_of_command, wire_of_list},
+    io::{wire_async_limited, wire_of_command, wire_of_list, wire_sync_limited, WireItem},
     mpdref::tokenizer::{split_lines, tokenize},
 };
+
+/// command-name symbols: lower / upper case letter, underscore, digit, and characters outside
+/// MPD's command-word alphabet
+pub const NAME_SIGMA: &[&str] = &["a", "Z", "_", "7", "-", "\u{e9}"];
 
 /// one representative per class either side distinguishes
 pub const SIGMA: &[&str] = &["a", " ", "\t", "\r", "\x01", "\"", "'", "\\", "\0", "\u{e9}", "~", "\n"];
@@ -114,7 +118,14 @@ fn class_of_failing_arg(arg: &str) -> &'static str {
     "other"
 }
 
-fn signature(args: &[&str]) -> String {
+fn signature(name: &str, args: &[&str]) -> String {
+    // the command word itself?
+    if let Some(cmd) = build(name, &[], Via::Str) {
+        let w = wire_of_command(cmd);
+        if w.last() != Some(&b'\n') || roundtrips(name, &[], &w[..w.len() - 1]).is_err() {
+            return "C06/command-word".to_string();
+        }
+    }
     let mut classes: Vec<&'static str> = Vec::new();
     for a in args {
         let alone_ok = match build("cmd", &[a], Via::Str) {
@@ -215,7 +226,7 @@ fn check_case(name: &str, args: &[&str], acc: &mut Acc, verbose: bool) {
             println!("  MISMATCH: {why}");
         }
         acc.viol.push(Violation::new(
-            signature(args),
+            signature(name, args),
             format!("{} [{}] -> wire {:?}: {}", name, args.iter().map(|a| format!("<{}>", show_bytes(a.as_bytes()))).collect::<Vec<_>>().join(" "), show_bytes(&w), why),
             case_json(name, args, Via::Str, "send"),
         ));
@@ -224,9 +235,39 @@ fn check_case(name: &str, args: &[&str], acc: &mut Acc, verbose: bool) {
         println!("  tokenizer reads back exactly the arguments");
     }
 
+    // path 1b: the asynchronous connection (the path every `Client` request takes) and the
+    // blocking one over transports that accept only a few bytes per write
+    for (what, got) in [
+        ("AsyncConnection::send, 3 bytes per write", wire_async_limited(WireItem::Command(cmd.clone()), 3)),
+        ("AsyncConnection::send_list (one command), whole writes", wire_async_limited(WireItem::List(CommandList::new(cmd.clone())), usize::MAX)),
+        ("AsyncConnection::send_list (one command), 1 byte per write", wire_async_limited(WireItem::List(CommandList::new(cmd.clone())), 1)),
+        ("Connection::send, 2 bytes per write", wire_sync_limited(WireItem::Command(cmd.clone()), 2)),
+    ] {
+        acc.lines += 1;
+        if got.as_deref() != Ok(&w[..]) {
+            acc.viol.push(Violation::new(
+                "C06/wire-depends-on-transport",
+                format!("{what}: {:?} reaches the transport as {:?}, Connection::send wrote {:?}", args, got.as_ref().map(|g| show_bytes(g)), show_bytes(&w)),
+                case_json(name, args, Via::Str, "send"),
+            ));
+            return;
+        }
+    }
+
     // path 2: inside a two-element list (second position), framed by a fixed first command
     let list = CommandList::new(Command::new("first")).command(cmd);
-    let w = wire_of_list(list);
+    let w = wire_of_list(list.clone());
+    match wire_async_limited(WireItem::List(list), 5) {
+        Ok(a) if a == w => {}
+        other => {
+            acc.viol.push(Violation::new(
+                "C06/wire-depends-on-transport",
+                format!("AsyncConnection::send_list, 5 bytes per write: {:?} reaches the transport as {:?}, Connection::send_list wrote {:?}", args, other.as_ref().map(|g| show_bytes(g)), show_bytes(&w)),
+                case_json(name, args, Via::Str, "list"),
+            ));
+            return;
+        }
+    }
     let (lines, rest) = split_lines(&w);
     acc.lines += lines.len() as u64;
     let ok = rest.is_empty()
@@ -324,7 +365,23 @@ pub fn run(tier: Tier) -> i32 {
         }
     }
 
-    let acc = acc1.merge(acc2).merge(acc3).merge(acc4);
+    // every command name the builder accepts must be read back as that command word
+    let name_pool = strings_over(NAME_SIGMA, tier.pick(3, 4));
+    let acc5 = name_pool
+        .par_iter()
+        .map(|n| {
+            let mut acc = Acc::default();
+            if n.is_empty() {
+                return acc;
+            }
+            for args in [&[][..], &["x y"][..]] {
+                check_case(n, args, &mut acc, false);
+            }
+            acc
+        })
+        .reduce(Acc::default, Acc::merge);
+
+    let acc = acc1.merge(acc2).merge(acc3).merge(acc4).merge(acc5);
 
     let mut cov = Coverage::default();
     cov.evaluations = acc.evaluations;
